@@ -54,6 +54,9 @@ CLAIMED = {
  'C20': ("model-based proptest: TZ values x virtual file systems x directory lists through the recording read function, against a reference resolver written from tzset(3)",
          "Exploration: exact sequence of opened paths, outcome class (file chosen / decoded as description / empty / I/O error / decoding error without fallback / description refused) and decoded zone must equal the reference resolver's for generated TZ values (padded, ':'-prefixed, absolute, relative, sentence-and-filename), directory lists and virtual file systems populated on the candidate paths; parse_local() reads /etc/localtime only.",
          "Reference resolver transcribed from the property text; virtual file system is harness state.", "DESIGN.md §5 C20"),
+ 'C07': ("coverage-guided fuzzing (libFuzzer, 3 targets: TZif bytes, TZ-string bytes, structured API via arbitrary) with semantic oracles inside the targets + structured enumeration (all truncations / hostile header counts / byte flips of every real file) + counting allocator; two build configurations",
+         "Exploration: libFuzzer campaigns from committed seed corpora with a fixed number of runs on three targets whose bodies also run the C08 reference decoding, the C09 recogniser and the owned-vs-borrowed constructor comparison; coverage-independent enumeration of every truncation point and every hostile header count of all 894 real files and byte flips of a sample; random structured API arguments biased to integer extremes; every public query on every accepted zone. A panic, overflow trap, out-of-bounds, abort, or heap use above 16*len+4 KiB is a violation. Run with overflow checks/debug assertions on and (structured half) off.",
+         "No 32-bit target available; libFuzzer campaigns are only approximately reproducible from the seed (the saved artifact is the reproducible unit); time-outs are inconclusive.", "DESIGN.md §5 C07"),
 }
 
 def entry(pid):
@@ -84,6 +87,7 @@ manifest = {
         "add_only": True,
     },
     "engines": [
+        {"name": "libfuzzer", "path": "/verif/fuzz", "serves_properties": ["C07"], "kind_free_text": "cargo-fuzz crate with three libFuzzer targets (tzif, tzstr, api) whose bodies live in vlib::fuzz_entry; driven by checks/C07.sh"},
         {"name": "vcheck", "path": "/verif/vlib", "serves_properties": sorted(CLAIMED), "kind_free_text": "Rust harness: independent oracles + enumerations + proptest (sharded, seeded, shrinking) + replay; built against /repo by path dependency on every ./check"},
     ],
     "checks": [entry(p['id']) for p in props if p['id'] in CLAIMED],
